@@ -266,16 +266,18 @@ def theoryTranslate (t : ExternalTask) (m : PlaceholderMap) (fuel : Nat) (p : Pr
       | none => .timeout
     else .ok th
 
+/-- one formula of `control_translate` -/
+def controlStep (pub : List Pred) (acc : Specification × Nat) (f : Formula) : Specification × Nat :=
+  match headPredicate f with
+  | some p =>
+    let nm := "completed_definition_of_" ++ p.symbol ++ "_" ++ toString p.arity
+    if p ∈ pub then (acc.1 ++ [⟨.spec, .universal, nm, f⟩], acc.2)
+    else (acc.1 ++ [⟨.assumption, .universal, nm, f⟩], acc.2)
+  | none => (acc.1 ++ [⟨.spec, .universal, "constraint_" ++ toString acc.2, f⟩], acc.2 + 1)
+
 /-- `control_translate` -/
 def controlTranslate (pub : List Pred) (th : Theory) : Specification :=
-  let step (acc : Specification × Nat) (f : Formula) : Specification × Nat :=
-    match headPredicate f with
-    | some p =>
-      let nm := "completed_definition_of_" ++ p.symbol ++ "_" ++ toString p.arity
-      if p ∈ pub then (acc.1 ++ [⟨.spec, .universal, nm, f⟩], acc.2)
-      else (acc.1 ++ [⟨.assumption, .universal, nm, f⟩], acc.2)
-    | none => (acc.1 ++ [⟨.spec, .universal, "constraint_" ++ toString acc.2, f⟩], acc.2 + 1)
-  (th.foldl step ([], 0)).1
+  (th.foldl (controlStep pub) ([], 0)).1
 
 /-- `break_equivalences_annotated_formula` -/
 def breakAnnotated (a : SAnn) : List SAnn :=
@@ -292,46 +294,52 @@ structure Assembled where
   bwdPremises : List AnnF := []
   bwdConclusions : List AnnF := []
 
+/-- conjectures a formula contributes (eq-break splits equivalences) -/
+def conjOf (breakEq : Bool) (a : SAnn) : List AnnF :=
+  if breakEq then (breakAnnotated a).map (·.toProblem .conjecture) else [a.toProblem .conjecture]
+
+/-- one formula of the specification side -/
+def assembleStepL (breakEq : Bool) (st : Outcome Assembled) (f : SAnn) : Outcome Assembled :=
+  match st with
+  | .ok s =>
+    match f.role with
+    | .assumption =>
+      match f.direction with
+      | .universal => .ok { s with stable := s.stable ++ [f.toProblem .axiom] }
+      | .forward => .ok { s with fwdPremises := s.fwdPremises ++ [f.toProblem .axiom] }
+      | .backward => .ok s
+    | .spec =>
+      let s := if f.direction = .universal ∨ f.direction = .forward
+        then { s with fwdPremises := s.fwdPremises ++ [f.toProblem .axiom] } else s
+      let s := if f.direction = .universal ∨ f.direction = .backward
+        then { s with bwdConclusions := s.bwdConclusions ++ conjOf breakEq f } else s
+      .ok s
+    | _ => .panic "unreachable: lemma/definition role in the specification side"
+  | other => other
+
+/-- one formula of the program side -/
+def assembleStepR (breakEq : Bool) (st : Outcome Assembled) (f : SAnn) : Outcome Assembled :=
+  match st with
+  | .ok s =>
+    match f.role with
+    | .assumption =>
+      match f.direction with
+      | .universal => .ok { s with stable := s.stable ++ [f.toProblem .axiom] }
+      | .forward => .ok s
+      | .backward => .ok { s with bwdPremises := s.bwdPremises ++ [f.toProblem .axiom] }
+    | .spec =>
+      let s := if f.direction = .universal ∨ f.direction = .backward
+        then { s with bwdPremises := s.bwdPremises ++ [f.toProblem .axiom] } else s
+      let s := if f.direction = .universal ∨ f.direction = .forward
+        then { s with fwdConclusions := s.fwdConclusions ++ conjOf breakEq f } else s
+      .ok s
+    | _ => .panic "unreachable: lemma/definition role in the program side"
+  | other => other
+
 /-- `ValidatedExternalEquivalenceTask::decompose` (partition into premises and conclusions). -/
 def assemble (left right ugAssumptions : List SAnn) (breakEq : Bool) : Outcome Assembled :=
   let st0 : Assembled := { stable := ugAssumptions.map (·.toProblem .axiom) }
-  let conj (a : SAnn) : List AnnF :=
-    if breakEq then (breakAnnotated a).map (·.toProblem .conjecture) else [a.toProblem .conjecture]
-  let stepL (st : Outcome Assembled) (f : SAnn) : Outcome Assembled :=
-    match st with
-    | .ok s =>
-      match f.role with
-      | .assumption =>
-        match f.direction with
-        | .universal => .ok { s with stable := s.stable ++ [f.toProblem .axiom] }
-        | .forward => .ok { s with fwdPremises := s.fwdPremises ++ [f.toProblem .axiom] }
-        | .backward => .ok s
-      | .spec =>
-        let s := if f.direction = .universal ∨ f.direction = .forward
-          then { s with fwdPremises := s.fwdPremises ++ [f.toProblem .axiom] } else s
-        let s := if f.direction = .universal ∨ f.direction = .backward
-          then { s with bwdConclusions := s.bwdConclusions ++ conj f } else s
-        .ok s
-      | _ => .panic "unreachable: lemma/definition role in the specification side"
-    | other => other
-  let stepR (st : Outcome Assembled) (f : SAnn) : Outcome Assembled :=
-    match st with
-    | .ok s =>
-      match f.role with
-      | .assumption =>
-        match f.direction with
-        | .universal => .ok { s with stable := s.stable ++ [f.toProblem .axiom] }
-        | .forward => .ok s
-        | .backward => .ok { s with bwdPremises := s.bwdPremises ++ [f.toProblem .axiom] }
-      | .spec =>
-        let s := if f.direction = .universal ∨ f.direction = .backward
-          then { s with bwdPremises := s.bwdPremises ++ [f.toProblem .axiom] } else s
-        let s := if f.direction = .universal ∨ f.direction = .forward
-          then { s with fwdConclusions := s.fwdConclusions ++ conj f } else s
-        .ok s
-      | _ => .panic "unreachable: lemma/definition role in the program side"
-    | other => other
-  right.foldl stepR (left.foldl stepL (.ok st0))
+  right.foldl (assembleStepR breakEq) (left.foldl (assembleStepL breakEq) (.ok st0))
 
 def mkProblem (name : String) (parts : List (List AnnF)) : Problem :=
   (parts.foldl (fun (p : Problem) fs => p.addAnnotated fs) ⟨name, []⟩).renameConflictingSymbols.uniqueNames
@@ -408,6 +416,16 @@ def precheck (t : ExternalTask) : Option TaskError :=
           if s.any fun f => !(f.role = .assumption || f.role = .spec)
           then some .specificationContainsUnsupportedRoles else none
 
+/-- one user-guide formula: assumptions are kept (they must not mention output predicates) -/
+def ugAssStep (ug : UserGuide) (m : PlaceholderMap) (acc : Outcome (List SAnn)) (f : SAnn) : Outcome (List SAnn) :=
+  match acc with
+  | .ok l =>
+    if f.role = .assumption then
+      if f.formula.preds.any (· ∈ ug.outputs) then .err .outputPredicateInUserGuideAssumption
+      else .ok (l ++ [f.replacePlaceholders m])
+    else .ok l
+  | other => other
+
 def externalProblems (t : ExternalTask) (fuel : Nat) : Outcome (List Problem) :=
   match precheck t with
   | some e => .err e
@@ -426,14 +444,7 @@ def externalProblems (t : ExternalTask) (fuel : Nat) : Outcome (List Problem) :=
   let clash := specPrivate.filter (· ∈ progPrivate)
   let right := (controlTranslate pub rightTh).map fun a => { a with formula := a.formula.renamePreds clash }
   -- user guide assumptions
-  let ugAss ← ug.formulas.foldl (fun (acc : Outcome (List SAnn)) f =>
-      match acc with
-      | .ok l =>
-        if f.role = .assumption then
-          if f.formula.preds.any (· ∈ ug.outputs) then .err .outputPredicateInUserGuideAssumption
-          else .ok (l ++ [f.replacePlaceholders m])
-        else .ok l
-      | other => other) (.ok [])
+  let ugAss ← ug.formulas.foldl (ugAssStep ug m) (.ok [])
   let taken := right.foldl (fun acc a => ext acc a.formula.preds)
     (left.foldl (fun acc a => ext acc a.formula.preds) ug.inputs)
   let po ← proofOutlineFrom t.proofOutline taken m
